@@ -103,6 +103,20 @@ def k_bound_method():
   return Holder().meth, 'x', lambda r: r[2], dict(call=lambda f: f(), needs_name=True)
 
 
+def k_bound_wraps_method():
+  def deco(fn):
+    @functools.wraps(fn)
+    def w(*a, **k):
+      return fn(*a, **k)
+    return w
+
+  class Holder:
+    @deco
+    def meth(self, a='da', x='dx'):
+      return ('boundwraps', a, x)
+  return Holder().meth, 'x', lambda r: r[2], dict(call=lambda f: f(), needs_name=True)
+
+
 def k_partial():
   def base(a, x='dx', y='dy'):
     return ('partial', a, x, y)
@@ -146,7 +160,7 @@ def k_double_wrapped():
 CALLABLES = {'wraps_decorated': k_wraps_decorated, 'lru_cached': k_lru_cached, 'double_wrapped': k_double_wrapped,
              'def': k_def, 'lambda': k_lambda, 'sum': k_sum, 'len': k_len, 'str.upper': k_str_upper,
              'object.__init__': k_method_wrapper, 'callable_obj': k_callable_obj, 'partial': k_partial,
-             'bound_method': k_bound_method}
+             'bound_method': k_bound_method, 'bound_wraps_method': k_bound_wraps_method}
 
 
 # ------------------------------------------------------------------------------------ classes
@@ -461,7 +475,7 @@ def case_callable(kind, api, form, scope, res):
   if info.get('builtin'):
     res.w('builtin_callable')
   # a caller value given positionally wins over a binding of that (first) parameter, whatever kind of callable it is
-  if kind in ('def', 'callable_obj', 'bound_method', 'wraps_decorated', 'double_wrapped'):
+  if kind in ('def', 'callable_obj', 'bound_method', 'bound_wraps_method', 'wraps_decorated', 'double_wrapped'):
     try:
       gin.bind_parameter(((scope or ''), selector, 'a'), 'BA')
       reg = gin.get_configurable((scope + '/' if scope else '') + selector)
